@@ -9,7 +9,7 @@ import (
 
 // ---- initial trees -------------------------------------------------------------------------
 
-var namePool = []string{"a", "b", "c", "d", "e", "f", "ä", "x€", "l", "m", "a2", "f.new"} // incl. names that extend another name of the pool
+var namePool = []string{"a", "b", "c", "d", "e", "f", "ä", "x€", "l", "m", "a2", "f.new", "Яx", "a b"} // incl. names that extend another name of the pool
 
 var fileModes = []uint32{0o644, 0o600, 0o755, 0o640, 0o444, 0o4755, 0o2755, 0o6755, 0o2644, 0o1644, 0o666, 0}
 var dirModes = []uint32{0o755, 0o700, 0o750, 0o2755, 0o2775, 0o1755, 0o777, 0o500}
